@@ -69,8 +69,58 @@ def _e_interchange(interp, args, kwargs, result):
     prove_wf(ex, 'C01:interchange', result)
 
 
-contract('rewriting.interchange', spec=SPEC_INTERCHANGE, params=_p_interchange, ensures=_e_interchange,
-         on_raise=lambda *a: None, property_ids=('C05', 'C01'))
+def _spans(interp, self, i, j):
+    """the output span of the upper box and the input span of the lower box of an adjacent pair, as wire positions"""
+    ex = interp.ex
+    lo = z3.simplify(z3.If(i.t < j.t, i.t, j.t))
+    l0 = ex.list_at(self.layers.boxes, lo)
+    l1 = ex.list_at(self.layers.boxes, z3.simplify(lo + 1))
+    a0 = T.ty_len(l0.left.t)
+    a1 = z3.simplify(a0 + T.ty_len(T.bcod(l0.box.t)))
+    b0 = T.ty_len(l1.left.t)
+    b1 = z3.simplify(b0 + T.ty_len(T.bdom(l1.box.t)))
+    wired = z3.And(z3.If(a0 > b0, a0, b0) < z3.If(a1 < b1, a1, b1))       # the two spans share a wire
+    enclosed = z3.Or(z3.And(a0 == a1, b0 < a0, a0 < b1),     # upper box without outputs strictly inside the inputs of the lower
+                     z3.And(b0 == b1, a0 < b0, b0 < a1))     # lower box without inputs strictly inside the outputs of the upper
+    return wired, enclosed
+
+
+def _r_interchange(interp, args, kwargs, exc):
+    """from the property statement: IndexError iff an index is out of range; InterchangerError exactly when the two
+    boxes are wired to each other"""
+    ex = interp.ex
+    self, i, j, left = args
+    n = self.boxes.length()
+    in_range = z3.And(0 <= i.t, i.t < n, 0 <= j.t, j.t < n)
+    if exc == 'IndexError':
+        ex.prove('C05:IndexError only for an index out of range', z3.Not(in_range))
+        return
+    ex.prove('C05:the only other refusal is InterchangerError (raised %s)' % exc, z3.BoolVal(exc == 'InterchangerError'))
+    ex.prove('C05:InterchangerError only for indices in range', z3.And(in_range, i.t != j.t))
+
+    def side():
+        ex.assume(z3.And(in_range, i.t != j.t))
+        wired, enclosed = _spans(interp, self, i, j)
+        ex.prove('C05:refused only if the boxes share a wire or one is enclosed by the wires of the other',
+                 z3.Or(wired, enclosed))
+        ex.prove('C05:refused only if the boxes share a wire', wired)
+    ex.side(side)
+
+
+def _e_interchange_plus(interp, args, kwargs, result):
+    _e_interchange(interp, args, kwargs, result)
+    ex = interp.ex
+    self, i, j, left = args
+
+    def side():
+        ex.assume(i.t != j.t)
+        wired, enclosed = _spans(interp, self, i, j)
+        ex.prove('C05:a move past a box wired to the moving box is refused', z3.Not(wired))
+    ex.side(side)
+
+
+contract('rewriting.interchange', spec=SPEC_INTERCHANGE, params=_p_interchange, ensures=_e_interchange_plus,
+         on_raise=_r_interchange, property_ids=('C05', 'C01'))
 
 
 # ------------------------------------------------------------------ call-site (abstract) contract of interchange
